@@ -209,7 +209,7 @@ def run(ctx):
         return
     run_wiring(ctx)
     if ctx.replay_case is None:
-        c08_pipeline.run_stream(ctx, 120 if ctx.tier == "quick" else 2000)
+        c08_pipeline.run_stream(ctx, 200 if ctx.tier == "quick" else 3000)
 
 
 def run_wiring(ctx):
